@@ -42,6 +42,8 @@ pub enum ParseError {
     UnexpectedError(Box<Token>),
     UnknownDirective(Box<Token>),
     CyclicDependency(Box<Token>),
+    /// More files were included than the parser is willing to read
+    TooManyIncludes(Box<Token>),
     FileNotFound(With<String>),
     IOError(With<String>, String),
     InvalidString(Box<Token>, Box<StringLexError>),
@@ -83,6 +85,7 @@ impl Display for ParseError {
             ParseError::UnexpectedError(_) => write!(f, "Unexpected error"),
             ParseError::UnknownDirective(_) => write!(f, "Unknown directive"),
             ParseError::CyclicDependency(_) => write!(f, "Cyclic dependency"),
+            ParseError::TooManyIncludes(_) => write!(f, "Too many included files"),
             ParseError::FileNotFound(file) => write!(f, "File not found: {file}"),
             ParseError::IOError(file, err) => write!(f, "IO Error: {file} ({err})"),
             ParseError::InvalidString(_info, _kind) => {
@@ -134,6 +137,12 @@ impl DiagnosticMessage for ParseError {
                 This is likely due to a file importing itself or a file importing a file that imports it.\
                 Please remove the cyclic dependency to fix this error.
             ".to_string(),
+            ParseError::TooManyIncludes(_) => format!(
+                "Too many included files.\n\n\
+                More than {} files have been included, most likely because files include each other \
+                several times over. This file is not read.",
+                super::MAX_INCLUDED_FILES
+            ),
             ParseError::FileNotFound(file) => format!("File not found: {file}"),
             ParseError::IOError(file, err) => format!("IO Error: {file} ({err})"),
             ParseError::InvalidString(_, e) => {
@@ -178,7 +187,8 @@ impl DiagnosticLocation for ParseError {
             | ParseError::UnexpectedError(info)
             | ParseError::UnknownDirective(info)
             | ParseError::InvalidString(info, _)
-            | ParseError::CyclicDependency(info) => info.raw_text(),
+            | ParseError::CyclicDependency(info)
+            | ParseError::TooManyIncludes(info) => info.raw_text(),
             ParseError::FileNotFound(file) | ParseError::IOError(file, _) => file.raw_text(),
         }
     }
@@ -191,7 +201,8 @@ impl DiagnosticLocation for ParseError {
             | ParseError::UnexpectedError(info)
             | ParseError::UnknownDirective(info)
             | ParseError::InvalidString(info, _)
-            | ParseError::CyclicDependency(info) => info.file(),
+            | ParseError::CyclicDependency(info)
+            | ParseError::TooManyIncludes(info) => info.file(),
             ParseError::FileNotFound(file) | ParseError::IOError(file, _) => file.file(),
         }
     }
@@ -204,7 +215,8 @@ impl DiagnosticLocation for ParseError {
             | ParseError::UnexpectedError(info)
             | ParseError::UnknownDirective(info)
             | ParseError::InvalidString(info, _)
-            | ParseError::CyclicDependency(info) => info.range(),
+            | ParseError::CyclicDependency(info)
+            | ParseError::TooManyIncludes(info) => info.range(),
             ParseError::FileNotFound(file) | ParseError::IOError(file, _) => file.range(),
         }
     }
@@ -219,6 +231,7 @@ impl From<&ParseError> for SeverityLevel {
             | ParseError::UnexpectedError(_)
             | ParseError::UnknownDirective(_)
             | ParseError::CyclicDependency(_)
+            | ParseError::TooManyIncludes(_)
             | ParseError::FileNotFound(_)
             | ParseError::InvalidString(..)
             | ParseError::IOError(_, _) => SeverityLevel::Error,
